@@ -26,6 +26,10 @@ CHECKS = {
                 text="Sequential: every sequence (depth 3 quick / 4 thorough directly on bep44.Wrapper with a 51-letter alphabet; depth 2 / 3 over the wire on the real Server with a fresh token per put) of put(seq in {-1,0,1,2,3,MaxInt64}, cas in {0,1,2,9}, value a|b), get (over the wire also naming seq 0/1/2/MaxInt64) and clock steps to 1 ns before / past the expiry, compared after every step with a reference model: 302 for a lower seq or the same seq with another value, 301 unless cas equals the stored seq, an accepted put is what gets return, nothing is served after the expiry, v is sent to a get naming a seq only if the stored seq is newer, and the stored seq never decreases at any Store.Put. Concurrent: 8 scenarios of 2-3 concurrent Wrapper.Put/Get calls (two/three puts, same seq, cas race, empty slot, put vs get, expired item vs put) under the controlled scheduler with points at Store.Get/Put/Del and the wrapper mutex; all interleavings (unbounded), each checked for monotone stored seq and for linearizability against the same model by brute force over the call orders consistent with real time, including the final state later gets see.",
                 note="in the corner the statement leaves open (same seq, same value, mismatching cas) both accept and 301 are legal; an expired item that was not yet deleted may or may not still block a lower-seq put",
                 ref="DESIGN.md 5/C13"),
+    "C14": dict(level="fault_enumeration", technique="exhaustive enumeration of a fault/timing placement grid on the real dht.Server in a testing/synctest bubble (virtual clock, fake socket with scripted write errors, simulated peers)",
+                text="Grid (resend delay 1 s, 1 ns resolution): one Query with NumTries 1..3 x reply instant x ctx-cancel instant x Server.Close instant, each in {never, right after the first send, d/2, k*d - 1 ns, k*d + 1 ns}, x scripted socket write error on send i, x rate-limit options {default, NoWaitFirst, WaitOnRetries, NotAny} with a full or an empty limiter; every API call (Ping, FindNode, GetPeers, Get, Put) and every traversal (Bootstrap, BootstrapContext, AnnounceTraversal with/without announcing and with Close / StopTraversing, getput.Get mutable and immutable, getput.Put) under 7 start conditions (empty starting nodes, nil resolver, resolver error, one silent node, one answering node, 3-node network with a silent member, two nodes one silent) x stop instant {never, 0, 0.5 s, 2.5 s}; failing starts are repeated 3 times on one server. Oracle: the call returns; with the cause whose decisive instant comes first (reply / ctx / send error / closed / time-out after the last resend interval; same-instant ties accept either); at most NumTries datagrams and none after the return; in the first quiescent state after the return no pending transaction (Stats and dispatcher) and no goroutine with a frame in the module except the serve loop; after Close a new query fails and writes nothing and no goroutine remains.",
+                note="BootstrapContext returns at once on ctx cancellation while its context-less find_node queries run to their own time-out: for that case cleanup is checked at the horizon instead of at the return; goroutines stranded by earlier executions in the same process are excluded by bubble id",
+                ref="DESIGN.md 5/C14"),
     "C05": dict(level="model_checking", technique=E1,
                 text="All event histories up to the stated depth (full alphabet depth 2 / core alphabet depth 4 quick; deeper thorough) from 5 start states x 2 configurations are executed on the real Server; after every event the table snapshot must be a well-formed Kademlia table and agree with NumNodes/Stats/Nodes/WriteStatus. Bounded exhaustive, not a proof.",
                 note="go1.26.8 synctest runtime; VerifTable hook snapshot is trusted to copy the table faithfully; eviction victim among equally eligible entries is chosen by Go map order and not enumerated",
